@@ -498,9 +498,10 @@ class World20:
         if where == 'after creation':
             try:
                 o = self.current_wire_state('options')
-                want = {k: v for k, v in opts.items() if k != 'camera'}
-                got = {k: v for k, v in o.items() if k != 'camera'}
-                if got != json.loads(json.dumps(want)) or (('camera' in o) != ('camera' in opts)):
+                want = json.loads(json.dumps({k: v for k, v in opts.items() if k != 'camera'}))
+                got = {k: o.get(k) for k in want}
+                # every option the user gave arrives unchanged (additional defaults would not be a defect)
+                if got != want or ('camera' in opts and 'camera' not in o):
                     self.violate('W1-options', where=where, expected=str(want)[:300], got=str(got)[:300])
                     return
             except Exception as e:
